@@ -64,9 +64,34 @@ Proof.
   - intros X. apply IH. exact X.
 Qed.
 
-(* /revoke: 200 only if no delete was attempted, or the delete (the last call) did not fail *)
-Definition Qack_revoke (tr : list ev) (o : out) : Prop :=
-  o = OOk -> no_gdel tr = true \/ exists i, last_gdel tr = Some i.
+(* /revoke: 200 only if no delete was attempted, or the delete was the last call and did not fail *)
+Fixpoint ack_shape (tr : list ev) : bool :=
+  match tr with
+  | [] => true
+  | (c, r) :: t =>
+      match t with
+      | [] => if is_gdel c then rok r else true
+      | _ => andb (negb (is_gdel c)) (ack_shape t)
+      end
+  end.
+Lemma ack_shape_app tr1 tr2 : no_gdel tr1 = true -> ack_shape tr2 = true -> ack_shape (tr1 ++ tr2) = true.
+Proof.
+  unfold no_gdel. induction tr1 as [|[c r] tr1 IH]; cbn; auto.
+  intros H1 H2. apply andb_true_iff in H1 as [Hc H1]. specialize (IH H1 H2).
+  destruct (tr1 ++ tr2) eqn:E.
+  - destruct (is_gdel c); [discriminate|reflexivity].
+  - rewrite Hc, IH. reflexivity.
+Qed.
+Lemma ack_shape_gdel tr i r : ack_shape tr = true -> In (GDel i, r) tr -> r <> RFail /\ last_gdel tr = Some i.
+Proof.
+  induction tr as [|[c r0] tr IH]; cbn; [tauto|]. destruct tr as [|e tr].
+  - intros H [X|[]]. inversion X; subst. cbn in H. rewrite H. split; [intros ->; discriminate|reflexivity].
+  - intros H [X|X].
+    + inversion X; subst. discriminate.
+    + apply andb_true_iff in H as [_ H]. apply IH; auto.
+Qed.
+
+Definition Qack_revoke (tr : list ev) (o : out) : Prop := o = OOk -> ack_shape tr = true.
 Lemma revoke_ack w now r : wp anyR (revoke w now r) Qack_revoke.
 Proof.
   unfold revoke. c14_break; [intros H; discriminate|].
@@ -74,11 +99,9 @@ Proof.
   destruct oc as [c|]; [|intros H; discriminate].
   c14_break; [intros H; discriminate|].
   eapply wp_mono with (Q := Qack_revoke).
-  { intros tr2 o H HO. destruct (H HO) as [N|[i Hi]].
-    - left. unfold no_gdel in *. rewrite forallb_app, N, andb_true_r. apply reads_no_gdel, R1.
-    - right. exists i. apply last_gdel_app, Hi. }
+  { intros tr2 o H HO. apply ack_shape_app; [apply reads_no_gdel, R1|apply H, HO]. }
   unfold Qack_revoke, introspection_info.
-  c14_go; try discriminate; first [left; reflexivity | right; eexists; reflexivity].
+  c14_go; try discriminate; reflexivity.
 Qed.
 
 (* DCR: 204 only after a successful CDel of the addressed client; a document with credentials
